@@ -355,3 +355,148 @@ Theorem C03_search_closure_clean :
 Proof. exact search_closure_clean. Qed.
 Print Assumptions C03_search_closure_clean.
 
+
+Require Import LV.Base LV.VV LV.VVFacts LV.Path LV.PathSpec LV.PathTerm LV.PathDistinct LV.PathApi LV.Prog LV.Objects LV.Exec LV.Atomic LV.Ops LV.Check LV.AtomicFacts LV.AtomicCoherence LV.AtomicCoRR LV.AtomicClosure.
+
+(* THE SAME FOR THE MODEL'S CURRENT FUNCTIONS ON ALL RUNS, RMWs included (AtomicClosure.v): the invariant survives the RMW-atomicity closure of fix 01ecff8. Witness carried by the invariant: a ranking of the live stores that extends the modification order and in which every RMW store immediately follows the store it read *)
+(* the invariant holds in every state reachable by any sequence of loads, stores, RMWs and synchronisations of any number of threads (machine steps = the model's atomic_load / atomic_store / atomic_rmw) *)
+Theorem C03_reach_model_good :
+  forall st : mstate, reach_model st -> GoodS st.
+Proof. exact reach_model_good. Qed.
+Print Assumptions C03_reach_model_good.
+
+(* RMW ATOMICITY AS AN INVARIANT: in every reachable state every live RMW store is strictly mo-after the store it read, and no live store is strictly between them *)
+Theorem C03_rmw_atomicity_stable :
+  forall (st : mstate) (r sl sid : nat),
+       reach_model st ->
+       r < at_cnt (fst st) ->
+       st_rmw_src (get_store (fst st) r) = Some (sl, sid) ->
+       sl < at_cnt (fst st) /\
+       vv_lt (mo (fst st) sl) (mo (fst st) r) = true /\
+       (forall x : nat,
+        x < at_cnt (fst st) ->
+        vv_lt (mo (fst st) sl) (mo (fst st) x) && vv_lt (mo (fst st) x) (mo (fst st) r) = false).
+Proof. exact rmw_atomicity_stable. Qed.
+Print Assumptions C03_rmw_atomicity_stable.
+
+(* loom's `assert_ne!(mo_i, mo_j)` never fires *)
+Theorem C03_mlts_never_none_model :
+  forall st : mstate,
+       reach_model st ->
+       (forall (t : nat) (c : vv) (ly : option nat) (o : ord),
+        match_load_to_stores (fst st) t c ly o <> None) /\ match_rmw_to_stores (fst st) <> None.
+Proof. exact mlts_never_none_model. Qed.
+Print Assumptions C03_mlts_never_none_model.
+
+(* an edge of the modification order between live stores is never lost *)
+Theorem C03_run_stable_model :
+  forall (evs : list (nat * aop)) (st st' : mstate) (a b : nat),
+       GoodS st ->
+       mrun RModel st evs = Some st' ->
+       lives st a ->
+       lives st b -> mo_lt st a b = true -> lives st' a /\ lives st' b /\ mo_lt st' a b = true.
+Proof. exact run_stable_model. Qed.
+Print Assumptions C03_run_stable_model.
+
+(* CoRR / CoWR in happens-before form *)
+Theorem C03_CoRR_CoWR_model :
+  forall (st1 : mstate) (evs : list (nat * aop)) (st2 : mstate) (t i j : nat) (o : ord),
+       GoodS st1 ->
+       lives st1 i ->
+       lives st1 j ->
+       knows st1 t j ->
+       mo_lt st1 i j = true ->
+       mrun RModel st1 evs = Some st2 -> mstep RModel st2 t (XLoad i o) = None.
+Proof. exact CoRR_CoWR_model. Qed.
+Print Assumptions C03_CoRR_CoWR_model.
+
+(* an RMW never reads a store that was ever mo-before another *)
+Theorem C03_CoRR_CoWR_rmw_model :
+  forall (st1 : mstate) (evs : list (nat * aop)) (st2 : mstate) (t i j : nat)
+         (f : N -> option N) (so fo : ord),
+       GoodS st1 ->
+       lives st1 i ->
+       lives st1 j ->
+       mo_lt st1 i j = true ->
+       mrun RModel st1 evs = Some st2 -> mstep RModel st2 t (XRmw i f so fo) = None.
+Proof. exact CoRR_CoWR_rmw_model. Qed.
+Print Assumptions C03_CoRR_CoWR_rmw_model.
+
+(* a new store is mo-after everything its thread knows *)
+Theorem C03_CoWW_CoRW_model :
+  forall (st : mstate) (t : nat) (v : N) (o : ord) (st' : mstate) (i : nat),
+       GoodS st ->
+       lives st i ->
+       knows st t i ->
+       mstep RModel st t (XStore v o) = Some st' ->
+       lives st' (at_cnt (fst st)) /\ mo_lt st' i (at_cnt (fst st)) = true.
+Proof. exact CoWW_CoRW_model. Qed.
+Print Assumptions C03_CoWW_CoRW_model.
+
+(* read-read coherence of one thread, arbitrary steps of arbitrary threads in between *)
+Theorem C03_CoRR_same_thread_model :
+  forall (st0 : mstate) (t j : nat) (o : ord) (st1 : mstate) (evs : list (nat * aop))
+         (st2 : mstate) (i : nat) (o' : ord),
+       GoodS st0 ->
+       mstep RModel st0 t (XLoad j o) = Some st1 ->
+       lives st1 i ->
+       mo_lt st1 i j = true ->
+       mrun RModel st1 evs = Some st2 -> mstep RModel st2 t (XLoad i o') = None.
+Proof. exact CoRR_same_thread_model. Qed.
+Print Assumptions C03_CoRR_same_thread_model.
+
+(* write-read coherence *)
+Theorem C03_CoWR_same_thread_model :
+  forall (st0 : mstate) (t : nat) (v : N) (o : ord) (st1 : mstate) 
+         (evs : list (nat * aop)) (st2 : mstate) (i : nat) (o' : ord),
+       GoodS st0 ->
+       mstep RModel st0 t (XStore v o) = Some st1 ->
+       lives st1 i ->
+       mo_lt st1 i (at_cnt (fst st0)) = true ->
+       mrun RModel st1 evs = Some st2 -> mstep RModel st2 t (XLoad i o') = None.
+Proof. exact CoWR_same_thread_model. Qed.
+Print Assumptions C03_CoWR_same_thread_model.
+
+(* read-write coherence *)
+Theorem C03_CoRW_same_thread_model :
+  forall (st0 : mstate) (t j : nat) (o : ord) (st1 : mstate) (evs : list (nat * aop))
+         (st2 : mstate) (v : N) (o' : ord) (st3 : mstate),
+       GoodS st0 ->
+       mstep RModel st0 t (XLoad j o) = Some st1 ->
+       mrun RModel st1 evs = Some st2 ->
+       mstep RModel st2 t (XStore v o') = Some st3 -> mo_lt st3 j (at_cnt (fst st2)) = true.
+Proof. exact CoRW_same_thread_model. Qed.
+Print Assumptions C03_CoRW_same_thread_model.
+
+(* write-write coherence *)
+Theorem C03_CoWW_same_thread_model :
+  forall (st0 : mstate) (t : nat) (v : N) (o : ord) (st1 : mstate) 
+         (evs : list (nat * aop)) (st2 : mstate) (v' : N) (o' : ord) (st3 : mstate),
+       GoodS st0 ->
+       mstep RModel st0 t (XStore v o) = Some st1 ->
+       mrun RModel st1 evs = Some st2 ->
+       mstep RModel st2 t (XStore v' o') = Some st3 ->
+       mo_lt st3 (at_cnt (fst st0)) (at_cnt (fst st2)) = true.
+Proof. exact CoWW_same_thread_model. Qed.
+Print Assumptions C03_CoWW_same_thread_model.
+
+(* the fuel of the closure (4 x ring size) suffices: every productive round adds an ordered pair, there are at most 21 *)
+Theorem C03_close_model_closed :
+  forall (own rk : nat -> nat) (s : atomic_state) (cs : list vv),
+       InvO own s cs ->
+       LinkO own rk s ->
+       let s' :=
+         with_stores s
+           (close_rmw_atomicity (4 * MAX_ATOMIC_HISTORY) (Nat.min (at_cnt s) MAX_ATOMIC_HISTORY)
+              (at_stores s)) in
+       InvO own s' cs /\ LinkO own rk s' /\ Same s s' /\ Closed own s'.
+Proof. exact close_model_closed. Qed.
+Print Assumptions C03_close_model_closed.
+
+(* non-vacuity: both runs of the former D19 scenario (they contain an RMW) end in reachable states *)
+Theorem C03_reach_model_example :
+  (exists st : mstate, mrun0 RModel 4 gapA = Some st /\ reach_model st) /\
+       (exists st : mstate, mrun0 RModel 4 gapB = Some st /\ reach_model st).
+Proof. exact reach_model_example. Qed.
+Print Assumptions C03_reach_model_example.
+
